@@ -1320,6 +1320,12 @@ class C15(CaseSpec):
             return None
         for (a, b) in zip(obs, other):
             if a[1].startswith("ord [") or b[1].startswith("ord ["):
+                # hash order differs between the twins; the serde data-model shape (" dm ..", harness/src/shape.rs)
+                # depends only on the numbers of nodes and edges, so it must be the same
+                da, db = a[1].partition(" dm ")[2], b[1].partition(" dm ")[2]
+                if da != db:
+                    return "step %d `%s`: Serialize makes different serde data-model calls: %s `%s`, %s `%s`" % (
+                        a[0], case.steps[a[0]] if a[0] < len(case.steps) else "?", flavour, da[:100], twin, db[:100])
                 continue
             if a[1] == "skip" or b[1] == "skip":
                 continue
